@@ -8,7 +8,8 @@
    Only [roundtrip*] assume anything about them (the round-trip law [codec_law], validated on the
    real libraries by every correspondence run); the limit, rejection and pass-through theorems hold
    for EVERY behaviour of the decoders, i.e. also for adversarial bodies.                       *)
-From Verif Require Import Common.Base C16.Model C16.Proofs C16.Witness Generated.C16Tables Generated.C16Params C16.Tie.
+From Verif Require Import Common.Base C16.Model C16.Proofs C16.Witness Generated.C16Tables Generated.C16Params C16.Tie
+  C16.Harness C16.Check C16.ClausesSound.
 From Coq Require Import String.
 
 (* ---- clause 1a: round trip ----------------------------------------------------------------------
@@ -357,6 +358,49 @@ Theorem lserver_sound : forall dec cdec sc w,
   lserver sc (fun c => ldabs (dec c body1)) (fun i => ldabs (cdec i body1)) (w_ce w) (Z.of_nat (List.length (w_body w))) (w_cl w).
 Proof. exact lserver_sound_l. Qed.
 Print Assumptions lserver_sound.
+
+(* ==== unbounded histories: any sequence of requests through one client and one server =================== *)
+Theorem roundtrip_history : forall enc dec cdec, codec_law enc dec ->
+  forall cc sc c rs,
+  client_validate cc = true -> is_compressed cc.(c_type) = true -> writer_codec cc.(c_type) = Some c ->
+  hdr_compatible cc -> In cc.(c_type) (eff_algs sc) -> ~ In cc.(c_type) (map fst sc.(s_custom)) ->
+  Forall (fun r => r.(q_ce) = [] /\ r.(q_raw) = [] /\ body_ok r = true /\
+                   (Z.of_nat (List.length (body_bytes r.(q_body))) <= eff_max sc)%Z /\
+                   (Z.of_nat (List.length (enc c (writer_level c (effective_level cc.(c_level))) (body_bytes r.(q_body)))) <= eff_max sc)%Z) rs ->
+  run_history enc dec cdec cc sc rs = map (fun r => Some (Handled [] (-1) (body_bytes r.(q_body), E_EOF))) rs.
+Proof. exact roundtrip_history_l. Qed.
+Print Assumptions roundtrip_history.
+
+Theorem limit_holds_history : forall enc dec cdec cc sc rs ce cl s,
+  In (Some (Handled ce cl s)) (run_history enc dec cdec cc sc rs) -> (Z.of_nat (List.length (fst s)) <= eff_max sc)%Z.
+Proof. exact limit_holds_history_l. Qed.
+Print Assumptions limit_holds_history.
+
+(* ==== which inputs the real client refuses (the hypotheses client_validate / writer_codec of the theorems
+   above are exactly "not refused") ========================================================================= *)
+Theorem client_refused_iff : forall enc cc r,
+  client enc cc r = CRefused <->
+  (client_validate cc = false \/ (is_compressed cc.(c_type) = true /\ writer_codec cc.(c_type) = None)).
+Proof. exact client_refused_iff_l. Qed.
+Print Assumptions client_refused_iff.
+
+Theorem known_validated_type_not_refused : forall enc cc r,
+  type_known cc.(c_type) = true -> client_validate cc = true -> client enc cc r <> CRefused.
+Proof. exact known_validated_not_refused_l. Qed.
+Print Assumptions known_validated_type_not_refused.
+
+(* ==== the decidable clause checker run on every observed case is sound and complete ====================== *)
+Theorem clauses_sound : forall e, core_ok e = true <-> Clauses e.
+Proof. exact core_ok_sound. Qed.
+Print Assumptions clauses_sound.
+
+Theorem prop_ok_implies_clauses : forall c e, eobs_of c = Some e -> prop_ok c = true -> Clauses e.
+Proof. exact prop_ok_core. Qed.
+Print Assumptions prop_ok_implies_clauses.
+
+Theorem violated_clause_is_reported : forall c e, eobs_of c = Some e -> ~ Clauses e -> prop_ok c = false.
+Proof. exact prop_ok_complete. Qed.
+Print Assumptions violated_clause_is_reported.
 
 (* ==== TIE OBLIGATIONS: the hand-written definitions of Model.v equal what the CURRENT Go source says ====
    Generated/C16Tables.v is rewritten on every run by running the current code on the whole (finite, or
